@@ -562,3 +562,102 @@ func TestTimerCallbackRacesWithLaterWrites(t *testing.T) {
 	})
 	mustBeFlagged(t, f, "I5", first)
 }
+
+// windowProgram: a counter under a mutex; every 500th increment leaves the lock and touches a
+// variable under the read lock only (a window that opens once per 500 calls). Two tasks in
+// the window at once are a race.
+func windowProgram(stall bool, flaw bool) (flagged int, first string, stalls int64) {
+	vrace.Enabled = true
+	for seed := uint64(0); seed < 40; seed++ {
+		tape := core.NewTape(core.Mix(seed, "window", 0))
+		s := sched.New(tape, sched.Config{Strategy: sched.SRunToBlock, MaxSteps: 400000, RareStall: stall})
+		var mu vsync.RWMutex
+		n := 0
+		s.Run(2, nil, func(task int) {
+			for i := 0; i < 1200; i++ {
+				mu.Lock()
+				vrace.W(7)
+				n++
+				if n%500 != 0 {
+					mu.Unlock()
+					continue
+				}
+				mu.Unlock()
+				if flaw {
+					mu.RLock()
+					vrace.W(7)
+					mu.RUnlock()
+				} else {
+					mu.RLock()
+					vrace.R(7)
+					mu.RUnlock()
+				}
+			}
+		})
+		stalls += s.Faults["stalled_at_rare_site"]
+		if s.Infra != "" {
+			return -1, s.Infra, stalls
+		}
+		if s.Viol != nil {
+			flagged++
+			if first == "" {
+				first = s.Viol.Invariant + ": " + s.Viol.Detail
+			}
+		}
+	}
+	return
+}
+
+// The stalled-node fault holds the first task at the rarely reached read lock until the second
+// one comes to it: the window that run-to-block scheduling alone never sees two tasks in.
+func TestStallFindsTheRareWindow(t *testing.T) {
+	f, first, _ := windowProgram(false, true)
+	if f != 0 {
+		t.Fatalf("run-to-block alone was expected to miss the window, flagged %d: %s", f, first)
+	}
+	f, first, stalls := windowProgram(true, true)
+	if f < 20 || stalls == 0 {
+		t.Fatalf("stalled-node fault: flagged %d of 40 runs, %d stalls (%s)", f, stalls, first)
+	}
+	if len(first) < 2 || first[:2] != "I5" {
+		t.Fatalf("flagged as %q, want I5", first)
+	}
+	t.Logf("flagged in %d of 40 runs, %d stalls", f, stalls)
+}
+
+// ... and it only restricts the schedule: a program whose window is safe stays clean and finishes.
+func TestStallKeepsCorrectProgramsClean(t *testing.T) {
+	f, first, stalls := windowProgram(true, false)
+	if f != 0 {
+		t.Fatalf("correct program flagged in %d runs: %s", f, first)
+	}
+	if stalls == 0 {
+		t.Fatalf("the fault never fired")
+	}
+}
+
+// A task that waits politely (spin on an atomic) for a stalled one gets it back: no livelock.
+func TestStallReleasedWhenWaitedFor(t *testing.T) {
+	for seed := uint64(0); seed < 40; seed++ {
+		tape := core.NewTape(core.Mix(seed, "stallwait", 0))
+		s := sched.New(tape, sched.Config{Strategy: sched.SRunToBlock, MaxSteps: 200000, RareStall: true})
+		var flag vatomic.Int32
+		var mu vsync.Mutex
+		s.Run(2, nil, func(task int) {
+			if task == 0 {
+				for i := 0; i < 300; i++ {
+					mu.Lock()
+					mu.Unlock()
+				}
+				vrace.W(8) // first touch after the warm-up: a rare point
+				flag.Store(1)
+				return
+			}
+			for flag.Load() == 0 {
+			}
+		})
+		if s.Infra != "" || s.Viol != nil {
+			t.Fatalf("seed %d: infra=%q viol=%v", seed, s.Infra, s.Viol)
+		}
+	}
+}
